@@ -4,12 +4,12 @@ PROPS["C20"] = dict(
     harnesses=[dict(cmd="labels", mod="root", model="Model.Labels", quick=240, thorough=6000, shard=30,
                     preamble="Open Scope string_scope.",
                     require=["flavour.default", "flavour.extra", "probe.plain", "probe.mutated", "input.layers-over-limit",
-                             "input.urls-over-limit", "input.several-layers-with-urls", "input.bad-digest", "input.bad-ref",
+                             "input.urls-over-limit", "input.urls-at-limit", "input.layers-at-limit", "input.several-layers-with-urls", "input.bad-digest", "input.bad-ref",
                              "input.not-manifest", "input.nonlayer-in-layers"])],
     rule="manifests as containerd enumerates children (config, then 0..60 layers of mixed layer media types, repeated digests, "
          "sha256/384/512 digests, URL lists nil/empty/[\"\"]/foreign/with commas/long enough to hit the 4096-byte label limit, "
          "rarely a non-layer blob among the layers; malformed stream: unparsable digests and references), both handler flavours "
-         "(default; extra on top of containerd's AppendInfoHandlerWrapper), non-manifest descriptors; every produced annotation map "
+         "(default; extra on top of containerd's AppendInfoHandlerWrapper), non-manifest descriptors; plus a deterministic boundary sweep on every run (52 manifests: URL lists / digest lists whose label lands on limit-2..limit+2 for the urls, urls.<d>, urls.<dd>, stargz.layers and cri.image-layers keys, via one long item and via many short items, for the target, for neighbours and with the target repeated in its own list); every produced annotation map "
          "is read back by FromDefaultLabels and by the service reader chain, plus 1-4 mutated maps per case (labels removed / corrupted); "
          "non-trivial = >= 2 layers and a reader result with neighbours; distinct = distinct case term",
     assumptions=[
